@@ -28,7 +28,7 @@ pub fn spec(property: &str) -> Option<E1Check> {
             property: "C01",
             class: Class::C01,
             quick_runs: 20_000,
-            thorough_runs: 1_500_000,
+            thorough_runs: 600_000,
             mixed_share: 5,
             design_ref: "DESIGN.md section 4 (C01)",
             rule: "seeded histories of struct-API layer requests, LayerRef writes, buildpack file operations and stub-lifecycle restores over up to 4 layers; distinct = distinct (op kind, decision path, outcome) sequences; non-trivial = contains a request on a layer that already existed after a restore",
@@ -44,7 +44,7 @@ pub fn spec(property: &str) -> Option<E1Check> {
             property: "C02",
             class: Class::C02,
             quick_runs: 20_000,
-            thorough_runs: 1_500_000,
+            thorough_runs: 600_000,
             mixed_share: 5,
             design_ref: "DESIGN.md section 4 (C02)",
             rule: "seeded histories of trait-API handle_layer calls (strategy keep/update/recreate/error, migration recreate/replace/error, results with env for all four scopes, exec.d, SBOMs, files) interleaved with restores; distinct/non-trivial as for C01",
@@ -58,7 +58,7 @@ pub fn spec(property: &str) -> Option<E1Check> {
             property: "C03",
             class: Class::C03,
             quick_runs: 30_000,
-            thorough_runs: 2_000_000,
+            thorough_runs: 800_000,
             mixed_share: 10,
             design_ref: "DESIGN.md section 4 (C03)",
             rule: "sequences WriteEnv(E1); WriteEnv(E2); ...; ReadEnv and model-written spec-shaped directories followed by ReadEnv, names = non-empty byte strings without '/' and NUL, values arbitrary bytes; distinct = distinct op/outcome sequences; non-trivial = at least two env writes or a spec directory before a read (counted per history containing >= 2 env-affecting steps)",
@@ -72,7 +72,7 @@ pub fn spec(property: &str) -> Option<E1Check> {
             property: "C10",
             class: Class::C10,
             quick_runs: 10_000,
-            thorough_runs: 600_000,
+            thorough_runs: 400_000,
             mixed_share: 10,
             design_ref: "DESIGN.md section 4 (C10)",
             rule: "seeded assignments of {absent, dir, file, link-to-dir, link-to-file, dangling} to bin/lib/include/pkgconfig combined with explicit env entries and probe start environments, read->write cycles and trait-API keep; distinct = distinct op/outcome sequences",
@@ -84,7 +84,7 @@ pub fn spec(property: &str) -> Option<E1Check> {
             property: "C11",
             class: Class::C11,
             quick_runs: 10_000,
-            thorough_runs: 500_000,
+            thorough_runs: 300_000,
             mixed_share: 10,
             design_ref: "DESIGN.md section 4 (C11)",
             rule: "seeded hostile layer trees (nesting to depth 6, modes 0555/0666/0000/0311, symlinks to files and directories outside, relative/absolute, dangling, cycles, the layer path itself a symlink) followed by deleting requests, with canary trees and sibling layers snapshotted including modes and link targets",
